@@ -14,7 +14,9 @@
    are absent here (C14-C16 treat them). *)
 From Tx Require Import Common.Base Common.ListZ Nat.Model VnetAddr.Model.
 
-Record chunk := { c_id : Z; c_src : ep; c_dst : ep; c_data : zs }.
+(* c_id and c_trail are ghosts: the identity of the datagram (its rank among all writes) and the places it has
+   been queued in so far (router r: r; receive queue of socket k: -(k+1)) *)
+Record chunk := { c_id : Z; c_src : ep; c_dst : ep; c_data : zs; c_trail : zs }.
 
 Inductive nic := NHost (h : nat) | NRouter (r : nat).
 
@@ -71,6 +73,11 @@ Definition set_socks (s : nst) (ks : list sockst) : nst :=
 Definition with_q (k : sockst) (q : list chunk) : sockst :=
   {| k_host := k_host k; k_ip := k_ip k; k_port := k_port k; k_rem := k_rem k; k_open := k_open k; k_q := q; k_log := k_log k |}.
 
+Definition at_place (c : chunk) (p : Z) : chunk :=
+  {| c_id := c_id c; c_src := c_src c; c_dst := c_dst c; c_data := c_data c; c_trail := c_trail c ++ [p] |}.
+Definition place_router (r : nat) : Z := Z.of_nat r.
+Definition place_sock (k : nat) : Z := - (Z.of_nat k + 1).
+
 (* ---- host side -------------------------------------------------------------------------------------------- *)
 Definition is_loopback (ip : Z) : bool := ip / 16777216 =? 127.
 
@@ -93,7 +100,7 @@ Definition deliver_host (s : nst) (h : nat) (c : chunk) : nst :=
   | Some i =>
       match nth_error (n_socks s) i with
       | None => s
-      | Some k => if zlen (k_q k) <? readq_cap then set_socks s (upd i (with_q k (k_q k ++ [c])) (n_socks s)) else s
+      | Some k => if zlen (k_q k) <? readq_cap then set_socks s (upd i (with_q k (k_q k ++ [at_place c (place_sock i)])) (n_socks s)) else s
       end
   end.
 
@@ -102,7 +109,7 @@ Definition push (t : topo) (s : nst) (r : nat) (c : chunk) : nst :=
   match nth_error (t_routers t) r with
   | None => s
   | Some rt =>
-      if n_started s && ((rt_qcap rt <=? 0) || (zlen (getq s r) <? rt_qcap rt)) then set_q s r (getq s r ++ [c]) else s
+      if n_started s && ((rt_qcap rt <=? 0) || (zlen (getq s r) <? rt_qcap rt)) then set_q s r (getq s r ++ [at_place c (place_router r)]) else s
   end.
 
 Definition in_subnet (rt : rtopo) (ip : Z) : bool := Z.land ip (rt_mask rt) =? rt_net rt.
@@ -113,8 +120,8 @@ Fixpoint lookup_nic (l : list (Z * nic)) (ip : Z) : option nic :=
   | (a, n) :: t => if a =? ip then Some n else lookup_nic t ip
   end.
 
-Definition re_src (c : chunk) (a : ep) : chunk := {| c_id := c_id c; c_src := a; c_dst := c_dst c; c_data := c_data c |}.
-Definition re_dst (c : chunk) (a : ep) : chunk := {| c_id := c_id c; c_src := c_src c; c_dst := a; c_data := c_data c |}.
+Definition re_src (c : chunk) (a : ep) : chunk := {| c_id := c_id c; c_src := a; c_dst := c_dst c; c_data := c_data c; c_trail := c_trail c |}.
+Definition re_dst (c : chunk) (a : ep) : chunk := {| c_id := c_id c; c_src := c_src c; c_dst := a; c_data := c_data c; c_trail := c_trail c |}.
 
 Definition natof (s : nst) (r : nat) : nat_state := nth r (n_nat s) (new_nat false 0 0 0 [] []).
 
@@ -173,7 +180,7 @@ Definition write (t : topo) (s : nst) (ki : nat) (dst0 : ep) (data : zs) : nst *
       match source_ip t k (fst dst) with
       | None => (s, 1)
       | Some sip =>
-          let c := {| c_id := n_next s; c_src := (sip, k_port k); c_dst := dst; c_data := data |} in
+          let c := {| c_id := n_next s; c_src := (sip, k_port k); c_dst := dst; c_data := data; c_trail := [] |} in
           let s0 := {| n_now := n_now s; n_next := n_next s + 1; n_started := n_started s; n_q := n_q s; n_nat := n_nat s;
                        n_socks := n_socks s; n_written := n_written s ++ [c] |} in
           if is_loopback (fst dst) then (deliver_host s0 (k_host k) c, 0)
